@@ -103,6 +103,8 @@ def classify(step):
             key = "group-steals-memory-children-total-memory"
         elif k == "group" and (ck.get("cs", "-") != "-" or ck.get("ccs", "-") != "-") and (ck.get("ns", "-") != "-" or ck.get("cns", "-") != "-"):
             key = "group-incompatible-cpuset-nodeset-accepted"
+        elif k == "allow" and ck.get("flags") == "1" and clauses and all(c.startswith("allowed-") for c in clauses):
+            key = "allow-all-copies-complete-sets"
         elif wf_bad:
             key = "wf:%s:%s" % (k, ",".join(clauses))
         else:
@@ -162,7 +164,7 @@ def sanitizer_key(err, rc):
     frames = re.findall(r"#\d+ 0x[0-9a-f]+ in (hwloc_\w+)", err)
     if only_leaks(err):
         return "leak:%s" % (frames[-1] if frames else "unknown")
-    if "hwloc_internal_cpukinds_restrict" in err and "heap-use-after-free" in err:
+    if "heap-use-after-free" in err and "cpukind" in err:
         return "cpukinds-restrict-stale-slot-use-after-free"      # C15 defect (patches/fix-C15-restrict-stale-slot.diff)
     ub = re.search(r"runtime error: ([^\n]{0,60})", err)
     if ub and not m:
@@ -252,7 +254,7 @@ def make_cases(run):
         cases.append(("corpus:" + n, cfg, calls, "corpus"))
     for name, cfg, calls in G.DIRECTED:
         cases.append(("directed:" + name, cfg, calls, "directed"))
-    n_rand = 330 if quick else 12000
+    n_rand = 330 if quick else 4000
     maxlen = 40 if quick else 400
     for i in range(n_rand):
         cfg, kind = G.gen_config(rng, quick)
